@@ -672,6 +672,12 @@ def check_C09(c):
         scale = rng.below(min(digits, 28) + 1)
         pool.append(n(rng.below(10 ** digits), scale, rng.chance(1, 3)))
     pool += [n(1, 1), n(2, 1), n(3, 1), n(110, 2), n(11, 1), n(1, 28), n(int(MAXD)), n(0), n(0, 5), n(10, 1), n(1)]
+    # machine-word boundaries (a detour through i32/i64/f64 arithmetic shows exactly here), at scale 0 and scaled
+    for k in (31, 32, 53, 62, 63, 64, 95):
+        for dlt in (-1, 0, 1):
+            pool.append(n(2 ** k + dlt, 0, rng.chance(1, 2)))
+    pool += [n(3037000500), n(3037000499), n(4294967296, 0), n(4294967296, 3), n(9007199254740993), n(9007199254740993, 2),
+             n(9223372036854775807, 0, True), n(18446744073709551615), n(99999999999999999999), n(10 ** 19, 0, True)]
     ops = ["+", "-", "*", "%", "<", "<=", ">", ">=", "==", "!=", "+=", "-=", "*=", "%="]
     reqs2, meta = [], []
     for a in pool:
